@@ -158,10 +158,19 @@ func Synthesize(sc Scenario, res *Result) {
 		return
 	}
 	sim := NewSim(sc.Cfg, res.Obs.Logs, res.Obs.Left)
-	for _, e := range res.Ctl {
-		sim.Feed(e)
-	}
-	sim.Finish()
+	func() {
+		// observations no run of the model can explain must end up as a rejected
+		// case, never as a crash of the driver
+		defer func() {
+			if p := recover(); p != nil {
+				sim.Stuck = fmt.Sprint("schedule synthesis failed: ", p)
+			}
+		}()
+		for _, e := range res.Ctl {
+			sim.Feed(e)
+		}
+		sim.Finish()
+	}()
 	res.Stuck = sim.Stuck
 	res.NEvents = len(sim.Ev)
 	var obs []string
